@@ -85,6 +85,16 @@ func buildHistPool(seed uint64, big bool) *histPool {
 		}
 		hp.singles = append(hp.singles, add(Medium{Records: rs}, acc))
 	}
+	// nearly empty files (file_id only, or one or two messages): containers whose
+	// slices were never appended to - nil, and nil again after any history
+	for i := 0; i < 4; i++ {
+		r := NewRng(seed, "C08/empty", i)
+		ft := []byte{4, 4, 6, supportedFileTypes[r.Intn(len(supportedFileTypes))]}[i]
+		rs := genStream(r, StreamOpts{FT: ft, NData: i / 2 * 2, Arch: 2, Hdr14: i%2 == 0, MaxFields: 3})
+		if b := rs.Build(); plainDecodeOK(b) {
+			hp.singles = append(hp.singles, add(Medium{Records: rs}, hasAccumSource(b)))
+		}
+	}
 	// two long activity streams that visit most hosted message kinds with many of
 	// their fields (per-message-kind state shared between calls or goroutines)
 	for i := 0; i < 2; i++ {
